@@ -148,6 +148,24 @@ def unit_msgl3(tier, seed):
 
 UNITS['msgl3'] = unit_msgl3
 
+
+def unit_bs_msmrows(tier, seed):
+    import unit_standin
+    return unit_standin.run('msm_rows', ['msmperm'], {'C10', 'C01'},
+                            'msm_sat_frag!/msm_sig_frag! encode+decode (sort_unstable_by with a closure, iter_mut zip): row order independent of input order',
+                            tier, seed, 6000, 100000)
+
+
+def unit_bs_msgs(tier, seed):
+    import unit_standin
+    return unit_standin.run('messages', ['msgs'], {'C01', 'C02', 'C09', 'C16', 'C10', 'C17'},
+                            'whole-message decode/encode fixed point, panic-freedom and truncation for fragments outside the Verus units (MSM rows, bias lists, 1029 text, grids)',
+                            tier, seed, 40000, 1500000)
+
+
+UNITS['bs_msmrows'] = unit_bs_msmrows
+UNITS['bs_msgs'] = unit_bs_msgs
+
 # property -> units that carry obligations tagged with it
 PROPERTY_UNITS = {}
 PROPERTY_UNITS['C03'] = ['frame']
@@ -161,9 +179,9 @@ PROPERTY_UNITS['C11'] = ['dfvc']
 PROPERTY_UNITS['C15'] = ['l2', 'l1int', 'l0bits']
 PROPERTY_UNITS['C14'] = ['msgl3', 'frame']
 PROPERTY_UNITS['C12'] = ['msgl3', 'l0bits']
-PROPERTY_UNITS['C09'] = ['msgl3', 'l2', 'l1int', 'l1enc', 'l0bits']
-PROPERTY_UNITS['C10'] = ['l2', 'sigtab', 'l0bits']
-PROPERTY_UNITS['C02'] = ['frame', 'msgl3', 'l2', 'l1int', 'l1enc', 'l0bits']
+PROPERTY_UNITS['C09'] = ['msgl3', 'l2', 'l1int', 'l1enc', 'bs_msgs', 'l0bits']
+PROPERTY_UNITS['C10'] = ['l2', 'sigtab', 'bs_msmrows', 'bs_msgs', 'l0bits']
+PROPERTY_UNITS['C02'] = ['frame', 'msgl3', 'l2', 'l1int', 'l1enc', 'bs_msgs', 'l0bits']
 
 PROPERTY_LEVEL = {'C07': 'other'}
 PROPERTY_EXPLANATION = {'C07': 'Kani/CBMC harnesses complete over values x widths x bit offsets x buffer contents for every carrier type; buffer length symbolic up to the window listed in bounded_stand_ins (bounded in that one dimension).'}
